@@ -168,28 +168,6 @@ Example C14_class_premise_necessary :
             wf_node n /\ node_numerals_ok n = true /\ node_known_class n <> None /\
             lex_node (display_node n) <> Some (print_node n) /\
             parse_node_text (kind_of n) (display_node n) = PFail)
-    [ NTerm (TPre (PSym "not"));                                                        (* F7d *)
-      NAtom (mkatom "not" []);
-      NLiteral (mklit SNeg (mkatom "p" [TPre (PSym "a")]) );                            (* control: see below *)
-      NComparison (mkcmp AEq (TPre (PNum 1)) (TPre (PSym "not")));
-      NAtomicFormula (BLit (mklit SDNeg (mkatom "not" [])));
-      NHead (HBasic (mkatom "not" []));
-      NBody [BLit (mklit SNone (mkatom "q" [])); BLit (mklit SNone (mkatom "not" []))];
-      NTerm (TBin AAdd (TPre (PSym "not")) (TPre (PNum 1)));                           (* F7 *)
-      NRule (mkrule (HBasic (mkatom "not" [])) [BLit (mklit SNone (mkatom "p" []))]) ] (* F7: "not :- p." *)
-  -> False.
-Proof.
-  (* the third node is NOT in a class: the list as a whole cannot satisfy the predicate, i.e. the
-     predicate is not trivially true *)
-  intros H. inversion H as [|? ? _ H1]; subst. inversion H1 as [|? ? _ H2]; subst.
-  inversion H2 as [|? ? [_ [_ [C _]]] _]; subst. apply C. vm_compute. reflexivity.
-Qed.
-
-Example C14_class_premise_necessary_witnesses :
-  Forall (fun n : node =>
-            wf_node n /\ node_numerals_ok n = true /\ node_known_class n <> None /\
-            lex_node (display_node n) <> Some (print_node n) /\
-            parse_node_text (kind_of n) (display_node n) = PFail)
     [ NTerm (TPre (PSym "not"));
       NAtom (mkatom "not" []);
       NComparison (mkcmp AEq (TPre (PNum 1)) (TPre (PSym "not")));
